@@ -140,5 +140,5 @@ class FWorld(DWorld):
         if d is not None:
             entry = []
             c.deferred_results.setdefault("close", []).append(entry)
-            d.addCallbacks(lambda r: entry.append(("ok", r)), lambda f: entry.append(("err", f.type.__name__)))
+            d.addCallbacks(lambda r: (entry.append(("ok", r)), r)[1], lambda f: (entry.append(("err", f.type.__name__)), f)[1])
             d.addCallbacks(lambda r: s.close_result.append(("ok", r)), lambda f: s.close_result.append(("err", f.type.__name__)))
